@@ -5,6 +5,7 @@ import (
 	"go/ast"
 	"go/token"
 	"go/types"
+	"strings"
 
 	"golang.org/x/tools/go/types/typeutil"
 )
@@ -82,7 +83,9 @@ func (c *Ctx) diffRule(fname string) {
 							if o := f.Origin(); o != nil {
 								f = o
 							}
-							hn = f.Name()
+							// the recorded (canonical) name: a renamed helper keeps its role
+							cn := objName(f)
+							hn = cn[strings.LastIndex(cn, ".")+1:]
 						}
 						c.CallSites++
 						field := f1
